@@ -20,7 +20,8 @@ def _run(cmd, cwd, env=None, timeout=None):
 
 
 def _abnormal(rc):
-    return rc == "timeout" or (isinstance(rc, int) and (rc < 0 or rc in (97, 101, 134, 139)))
+    # 101 (a panic that escaped, i.e. a bug of the harness itself) is deliberately not in this list
+    return rc == "timeout" or (isinstance(rc, int) and (rc < 0 or rc in (97, 134, 139)))
 
 
 def _hang_case(txt):
@@ -105,7 +106,7 @@ def leg_c03_profiles(pid, tier, seed, h):
             found = None
             for line in streams.split("\n"):
                 parts = line.split()
-                if len(parts) != 2:
+                if len(parts) != 2 or not parts[1].isdigit():
                     continue
                 s, n = parts[0], int(parts[1])
                 rc3, _ = _c03_run_range(binary, tier, seed, h["scale"], s, 0, n, out, 1800, h["verif"])
@@ -159,7 +160,9 @@ def leg_c03_miri(pid, tier, seed, h):
             for v in r.get("violations", []):
                 v["sig"] = v["sig"]  # panics found under Miri are the same panics
                 viol.append(v)
-        elif "Undefined Behavior" in txt or "error: unsupported operation" in txt or "data race" in txt.lower():
+        elif "error: unsupported operation" in txt and "Undefined Behavior" not in txt:
+            errs.append("Miri shard %d met an operation Miri does not support (a limitation of Miri, not a verdict): %s" % (k, " ".join(l for l in txt.split("\n") if "unsupported operation" in l)[:300]))
+        elif "Undefined Behavior" in txt or "data race" in txt.lower():
             first = [l for l in txt.split("\n") if "error" in l][:1]
             viol.append({"sig": "C03:miri-ub", "what": "Miri reported: %s (shard %d, inputs multibyte:%d..%d)" % (" ".join(first)[:300], k, k * per, (k + 1) * per), "case": "multibyte:%d" % (k * per), "count": 1, "detail": {"log": txt[-1500:]}})
         else:
@@ -246,7 +249,11 @@ def leg_c15_xproc(pid, tier, seed, h):
         procs.append((out, subprocess.Popen(cmd, cwd=h["verif"], stdout=subprocess.PIPE, stderr=subprocess.STDOUT, text=True)))
     files = []
     for out, p in procs:
-        p.communicate(timeout=1800)
+        try:
+            p.communicate(timeout=1800)
+        except subprocess.TimeoutExpired:
+            p.kill()
+            return [], ["C15 digest process exceeded the watchdog"]
         if p.returncode != 0 or not os.path.exists(out):
             return [], ["C15 digest process failed (exit %s)" % p.returncode]
         files.append(open(out).read().split("\n"))
@@ -422,7 +429,7 @@ SPECS = {
     "C16": {
         "profiles": ["release"],
         "uses_model": True,
-        "rule": "programs with 1..3 printers (framed and plain, incl. print-relative-path / print-file-fid) x 2..3 logical scanner threads x 1..2 records each (+ stress: 6 printers, 4 threads x 8 records): the emitted text is executed in the model runtime, each thread's lock/write/unlock steps recorded, and interleavings explored by exhaustive DFS within a budget, then random + priority schedules until no new interleaving for 200 schedules; monitors: lockset (Eraser), frame/line decoder at quiescence with per-thread order, deadlock. distinct_nontrivial = distinct (configuration, interleaving) pairs in which a thread was blocked on a mutex or two threads' writes alternate on one port.",
+        "rule": "programs with 1..3 printers (framed and plain, incl. print-relative-path / print-file-fid) x 2..3 logical scanner threads x 1..2 records each (+ stress: 6 printers, 4 threads x 8 records): the emitted text is executed in the model runtime, each thread's lock/write/unlock steps recorded, and interleavings explored by exhaustive DFS within a budget, then random + priority schedules until no new interleaving for 200 schedules; monitors: lockset (Eraser), frame/line decoder at quiescence with per-thread order, deadlock. distinct_nontrivial = distinct (configuration, interleaving) pairs in which the writers of one port switch between threads at least twice (the threads' records really interleave); schedules with a blocked thread are counted separately.",
         "assumptions": ["a display call is the atom of port output; a thread's step sequence does not depend on the schedule (policies read no shared mutable state)"],
     },
     "C17": {
